@@ -95,6 +95,9 @@ SLICE_SETS = [
 ]
 
 
+MULTI_EOS = {"C01", "C11", "C12", "C18"}
+
+
 def build_job(prop, tier, seed, n_episodes, grammars, steps=(12, 30), vocab_choices=("byte", "syn", "bpe", "lang", "lang")):
     rng = random.Random(f"{prop}-{seed}")
     eps = []
@@ -103,6 +106,11 @@ def build_job(prop, tier, seed, n_episodes, grammars, steps=(12, 30), vocab_choi
         canonical = rng.choice([0, 1])
         vc = rng.choice(vocab_choices)
         voc = vocab_for(rng, g, vc, canonical)
+        if prop in MULTI_EOS and rng.random() < 0.25:
+            # several end-of-sequence tokens (TokTrie::with_eos_tokens): special tokens the grammar does not name
+            names = [nm for nm in ("<|user|>", "<|tool|>", "<a>") if nm not in gram_text(g)]
+            if names:
+                voc = dict(voc, eos_extra_names=rng.sample(names, min(len(names), rng.choice([1, 1, 2]))))
         w = dict(BASE_W[prop])
         if name.startswith("ext:"):
             # stop= / max_tokens= grammars do not support rollback (C12's quantifier excludes them)
@@ -244,6 +252,12 @@ def negative_control(prop, res, module="Trace_EngineRel", view="all"):
 
 # targeted histories for recorded (not repaired) defects: the check keeps exercising them
 KNOWN_SCRIPTS = {
+    "C11": [
+        {"gid": "kf:forced-marker-bytes-then-mask", "mode": "C11", "seed": 1, "steps": 0,
+         "gram": {"kind": "lark", "text": 'start: "a" <|user|>\n'},
+         "cfgs": [{"vocab": vocabs.byte(0), "vid": 0, "slices": []}], "w": {},
+         "script": [["consume", 97], ["mask", 0], ["ffb", 0], ["mask", 0], ["fresh", 0]]},
+    ],
     "C12": [
         {"gid": "kf:rollback-over-forced-id-token", "mode": "C12", "seed": 1, "steps": 0,
          "gram": {"kind": "lark", "text": 'start: "a" <[120]> "b"\n'},
